@@ -55,7 +55,7 @@ def expected_name(fn):
     return '%s.%s' % (mod, fn.__qualname__)
 
 
-ARGS = [1, -2, 1.5, 'a', 'it\'s', 'a long string value that has to be split somewhere ' * 2, None, True, [1, 2], (1,),
+ARGS = [[5, 4, 3, 2, 1], {'z': 1, 'b': 2, 'm': (1, 2, 3)}, 1, -2, 1.5, 'a', 'it\'s', 'a long string value that has to be split somewhere ' * 2, None, True, [1, 2], (1,),
         {'a': 1}, [], {}, b'bytes', ['nested', ['list', {'k': 'v'}]], {'k1': 1, 'k2': 2, 'k3': 3}, ...]
 
 
@@ -84,15 +84,18 @@ def call_shape(chk):
         v = Carrier(fn, cargs, kwargs, alt, kwform)
         for w in rng.sample([1, 10, 30, 79, 200], 2):
             nprints += 1
+            # the settings every argument must be printed with, too ("exactly as it would be on its own")
+            settings = {'max_seq_len': rng.choice([1000, 1000, 2, 1, None]), 'sort_dict_keys': rng.random() < 0.4}
             desc = {'callable': expected_name(fn), 'args': repr(args)[:200], 'kwargs': repr(kwargs)[:200],
-                    'via': 'pretty_call_alt/' + kwform if alt else 'pretty_call', 'width': w}
+                    'via': 'pretty_call_alt/' + kwform if alt else 'pretty_call', 'width': w, 'settings': settings}
             try:
                 with warnings.catch_warnings(record=True) as wl:
                     warnings.simplefilter('always')
                     with common.time_limit(20):
-                        out = P.pformat(v, width=w)
-                        own = [pyterm.parse_output(P.pformat(a, width=10 ** 5, ribbon_width=10 ** 5)) for a in args]
-                        kown = [[n, pyterm.parse_output(P.pformat(a, width=10 ** 5, ribbon_width=10 ** 5))] for n, a in kwargs]
+                        out = P.pformat(v, width=w, **settings)
+                        own = [pyterm.parse_output(P.pformat(a, width=10 ** 5, ribbon_width=10 ** 5, **settings)) for a in args]
+                        kown = [[n, pyterm.parse_output(P.pformat(a, width=10 ** 5, ribbon_width=10 ** 5, **settings))]
+                                for n, a in kwargs]
             except (Exception, common.Timeout, pyterm.ParseError) as e:  # noqa
                 chk.violation('C17.raises', 'printing %r raised %r' % (desc, e), desc)
                 continue
